@@ -119,3 +119,21 @@ Lemma bn_run :
                | _ => False end
   | _ => False end.
 Proof. vm_compute. repeat split. Qed.
+
+(* (quote d) on the machine with the builtins loaded: hypotheses and run *)
+Lemma qb_example :
+  exists s, boot_with [] = Some s /\ heap_datum qex_datum /\ minv s /\
+    match eval other_builtin 100 (quote_of qex_datum) s with
+    | ROk (Done c) s' => c = qex_datum /\ sp s' = 0 /\ bp s' = 0 /\ ep s' = USIZE_MAX
+    | _ => False
+    end.
+Proof.
+  destruct boot_bare as (s & B & E & _ & M & _). exists s.
+  split; [exact B|]. split; [exact qex_heap_datum|]. split; [exact M|].
+  assert (H : match load_builtins (vm_empty 8192) with
+              | ROk _ s0 => match eval other_builtin 100 (quote_of qex_datum) s0 with
+                            | ROk (Done c) s' => c = qex_datum /\ sp s' = 0 /\ bp s' = 0 /\ ep s' = USIZE_MAX
+                            | _ => False end
+              | _ => False end) by (vm_compute; repeat split).
+  rewrite E in H. exact H.
+Qed.
